@@ -2,8 +2,12 @@
 Frag/Split.v with (*Conn).fragmentHandshake and of Frag/Buffer.v with the real FragmentBuffer driven as
 conn.go bufferHandshakeRecord drives it; implementation-side monitors: popped message != honest
 message, popped twice / out of order, popped while a byte is missing, complete but not popped,
-retransmission flag, fragment body > MTU, resource bounds, panic."""
+retransmission flag, fragment body > MTU, resource bounds, panic.
+Live leg (TestVerifC12Live, real endpoints in the virtual-time lab): re-fragmented retransmission of a
+ClientHello, forged epoch-0 fragment of the DTLS 1.3 Certificate, MTU above the peer's read buffer /
+above the record length, the library's own fragment trains beyond the receiver's limit."""
 import hashlib
+import json
 
 import vlib
 from vlib import cN, clist, cbool
@@ -14,6 +18,13 @@ SITE_POP = "internal/fragmentbuffer/fragment_buffer.go Pop"
 SITE_PUSH = "internal/fragmentbuffer/fragment_buffer.go Push"
 SITE_SPLIT = "conn.go fragmentHandshake"
 MAX_SIZE, MAX_COUNT = 2000000, 1000
+
+# known findings of audit round 2 (registered in known_findings.json by (site, signature)); "levels" is
+# filled in with the levels (buffer / live) at which the scenario reproduced in this run
+K1 = (SITE_PUSH, {"monitor": "all-bytes-arrived-not-popped", "cause": "retransmission-with-other-fragment-size"})
+K2 = (SITE_POP, {"monitor": "unprotected-fragment-in-protected-message"})
+K3 = (SITE_SPLIT, {"monitor": "handshake-never-completes", "cause": "datagram-larger-than-inboundBufferSize"})
+K4 = (SITE_PUSH, {"monitor": "handshake-never-completes", "cause": "more-fragments-than-fragmentBufferMaxCount"})
 
 
 # ----------------------------------------------------------------- Coq term printers
@@ -167,6 +178,57 @@ def monitor_honest(c, completeness):
     return None
 
 
+def monitor_all_bytes(c):
+    """completeness as RFC 6347 4.2.3 / RFC 9147 5.5 ask for it (overlapping ranges handled): every
+    genuine fragment that reached the receiver counts, whatever partition it belongs to. Fires when,
+    at the end of the history, every byte of messages 0..k-1 has been on the wire and fewer than k
+    messages were popped."""
+    wire, popped = {}, 0
+    for o in c["ops"]:
+        if o["k"] != "push":
+            continue
+        if o["rec"]["kind"] == "hs":
+            for f in o["rec"]["frags"]:
+                wire.setdefault(f["seq"], set()).add((f["off"], f["flen"]))
+        popped += len(o["pops"])
+    k = 0
+    while k < len(c["msgs"]) and covered(wire.get(k, set()), c["msgs"][k]["len"]):
+        k += 1
+    if popped < k:
+        return "all-bytes-arrived-not-popped", "every byte of messages 0..%d arrived (%s), %d popped" % (
+            k - 1, ", ".join("[%d,%d)" % (a, a + b) for a, b in
+                             [(f["off"], f["flen"]) for o in c["ops"] if o["k"] == "push" and o["rec"]["kind"] == "hs"
+                              for f in o["rec"]["frags"]][:8]), popped)
+    return None
+
+
+def monitor_epoch(c):
+    """a message surfaced under epoch E consists of bytes that arrived in epoch-E records: the popped
+    bytes are the genuine message (c['msgs'] = what the peer sent) and the epoch-E fragments cover it"""
+    byep = {}
+    for i, o in enumerate(c["ops"]):
+        if o["k"] != "push" or o["rec"]["kind"] != "hs":
+            continue
+        for f in o["rec"]["frags"]:
+            byep.setdefault((o["rec"]["ep"], f["seq"]), set()).add((f["off"], f["flen"]))
+        for p in o["pops"]:
+            m = c["msgs"][p["seq"]]
+            body = bytes.fromhex(m.get("body", ""))
+            want = hdr(m["ty"], len(body), m["seq"], 0, len(body)) + body
+            got = bytes.fromhex(p["raw"])
+            if got != want:
+                diff = [j - 12 for j in range(12, min(len(got), len(want))) if got[j] != want[j]]
+                return "unprotected-fragment-in-protected-message", (
+                    "message %d surfaced under epoch %d differs from what the peer sent in bytes [%d,%d]: they come "
+                    "from a fragment that arrived in a record of another epoch (op %d)" % (
+                        p["seq"], p["ep"], diff[0] if diff else -1, diff[-1] if diff else -1, i))
+            if not covered(byep.get((p["ep"], p["seq"]), set()), m["len"]):
+                return "unprotected-fragment-in-protected-message", (
+                    "message %d surfaced under epoch %d although its epoch-%d fragments do not cover it" % (
+                        p["seq"], p["ep"], p["ep"]))
+    return None
+
+
 def has_overlap(c):
     seen = {}
     for o in c["ops"]:
@@ -246,13 +308,18 @@ def run(chk):
     rc1, o1 = vlib.go_test("./internal/fragmentbuffer", "^TestVerifC12Buffer$", dict(env, VERIF_OUT=out_b),
                            timeout=1800, tags=["c12"])
     rc2, o2 = vlib.go_test(".", "^TestVerifC12Split$", dict(env, VERIF_OUT=out_s), timeout=1800, tags=["c12"])
+    out_l = vlib.out_path("c12l")
+    rc3, o3 = vlib.go_test(".", "^TestVerifC12Live$", dict(env, VERIF_OUT=out_l), timeout=1800, tags=["c12"])
     cases = vlib.read_jsonl(out_b)
     splits = vlib.read_jsonl(out_s)
+    live = vlib.read_jsonl(out_l)
     vlib.cleanup(out_b)
     vlib.cleanup(out_s)
+    vlib.cleanup(out_l)
     rerun = "VERIF_SEED=%d bin/check C12 --tier %s" % (chk.seed, chk.tier)
     found_input = False
-    for rc, o, nm, site in ((rc1, o1, "TestVerifC12Buffer", SITE_POP), (rc2, o2, "TestVerifC12Split", SITE_SPLIT)):
+    for rc, o, nm, site in ((rc1, o1, "TestVerifC12Buffer", SITE_POP), (rc2, o2, "TestVerifC12Split", SITE_SPLIT),
+                            (rc3, o3, "TestVerifC12Live", "conn.go bufferHandshakeRecord")):
         if rc != 0:
             kind = vlib.classify_go_failure(o)
             if kind == "panic":
@@ -265,6 +332,8 @@ def run(chk):
         chk.broken("TestVerifC12Buffer produced no cases", o1)
     if rc2 == 0 and not splits:
         chk.broken("TestVerifC12Split produced no cases", o2)
+    if rc3 == 0 and not live:
+        chk.broken("TestVerifC12Live produced no observations", o3)
 
     by_leg = {}
     for c in cases:
@@ -298,33 +367,190 @@ def run(chk):
             found_input = True
             chk.finding(SITE_PUSH, {"monitor": m[0], "input": "4-byte message, partition (0,2)(2,0)(2,2), arrival (0,2),(2,0),(2,2)"},
                         m[1], {"case": w, "rerun": rerun})
-    # (1b) documented liveness boundaries (outside the premises of C12_reassembly_complete): safety
-    # monitors only; what the implementation did is recorded
-    for note in ("repartition", "capacity"):
+    # (1b) liveness boundaries replayed at fragment-buffer level: safety monitors must hold (anything else
+    # is a fresh violation); what the implementation did feeds the known findings K-C12-1/2/4 below
+    k_buf = {1: [], 2: [], 4: []}          # known-finding number -> [(note, monitor message, case)]
+    for note in ("repartition", "refragmented-retransmission", "capacity"):
         w = bnd.get(note)
         if w is None:
+            if rc1 == 0:
+                chk.broken("boundary case %r missing from TestVerifC12Buffer output" % note, o1)
             continue
         m = monitor_bounds(w) or monitor_honest(w, completeness=False)
         if m:
             found_input = True
             chk.finding(SITE_POP, {"monitor": m[0], "boundary": note}, m[1], {"case": strip_case(w), "rerun": rerun})
+            continue
+        m = monitor_all_bytes(w)
+        if m:
+            overflow = any(o["k"] == "push" and o["res"][2] for o in w["ops"])
+            if note == "capacity" and not overflow:
+                found_input = True
+                chk.finding(SITE_POP, {"monitor": m[0], "boundary": note}, m[1] + " (no Push was refused)",
+                            {"case": strip_case(w), "rerun": rerun})
+            else:
+                k_buf[4 if note == "capacity" else 1].append((note, m[1], strip_case(w, 12)))
+    w = bnd.get("epoch-splice")
+    if w is None:
+        if rc1 == 0:
+            chk.broken("boundary case 'epoch-splice' missing from TestVerifC12Buffer output", o1)
+    else:
+        m = monitor_bounds(w)
+        if m:
+            found_input = True
+            chk.finding(SITE_POP, {"monitor": m[0], "boundary": "epoch-splice"}, m[1], {"case": w, "rerun": rerun})
+        else:
+            m = monitor_epoch(w)
+            if m:
+                k_buf[2].append(("epoch-splice", m[1], w))
     w = bnd.get("repartition")
     if w is not None:
-        chk.leg_info("boundary", repartition_outside_quantifier={
+        chk.leg_info("boundary", repartition={
             "what": "fragments of the MTU-2 and MTU-3 partitions of one 4-byte message mixed: (0,2),(3,1),(2,2) -> "
-                    "fragmentsLength 5 != 4 for ever (BufferSound.repartition_wedges_refuted). Safety holds "
-                    "(reassembly_safe covers any mixture of genuine slices); liveness does not. Outside C12's "
-                    "quantifier (one partition per message); RFC 6347 4.2.3 asks receivers to handle overlapping ranges.",
+                    "fragmentsLength 5 != 4 for ever (BufferSound.repartition_wedges_refuted); "
+                    "'refragmented-retransmission': [0,100) then twice [0,150),[150,200) of a 200-byte message "
+                    "(BufferSound.refragmented_retransmission_refuted). Safety holds (reassembly_safe covers any mixture "
+                    "of genuine slices); liveness does not: known finding K-C12-1 (RFC 6347 4.2.3 asks receivers to "
+                    "handle overlapping ranges).",
             "messages_popped_on_implementation": sum(len(o["pops"]) for o in w["ops"])})
     w = bnd.get("capacity")
     if w is not None:
         chk.leg_info("boundary", capacity_is_the_fixed_buffering_limit={
             "what": "a message cut into 1001 fragments exceeds fragmentBufferMaxCount: after 1000 stored fragments every "
                     "Push returns ErrFragmentBufferOverflow (BufferSound.capacity_wedges_refuted / full_rejects_forever); "
-                    "this is the fixed limit C08 requires and a premise of C12_reassembly_complete, not a defect",
+                    "the limit itself is what C08 requires and stays a premise of C12_reassembly_complete; that the "
+                    "library's own sender produces such trains is known finding K-C12-4",
             "pushes": len(w["ops"]), "push_errors": sum(1 for o in w["ops"] if o["res"][2]),
             "max_count_seen": max(o["cn"] for o in w["ops"]),
             "messages_popped_on_implementation": sum(len(o["pops"]) for o in w["ops"])})
+
+    # (1c) live leg: real endpoints. Controls must pass (otherwise the harness is broken); every run is
+    # checked for the sender-side clauses (fragment body <= MTU, well-formed records); the test variants
+    # feed the known findings
+    lv = {(x["scenario"], x["variant"]): x for x in live}
+    k_live = {1: [], 2: [], 3: [], 4: []}
+
+    def hs_ok(x):
+        return x["done"] and x["cerr"] == "ok" and x["serr"] == "ok"
+
+    def need(sc, var):
+        x = lv.get((sc, var))
+        if x is None and rc3 == 0:
+            chk.broken("live observation %s/%s missing from TestVerifC12Live output" % (sc, var), o3)
+        return x
+
+    for x in live:
+        if x["scenario"] == "repartition":
+            continue
+        site_live = {"scenario": x["scenario"], "variant": x["variant"]}
+        if x["wirebad"]:
+            found_input = True
+            chk.finding(SITE_SPLIT, {"monitor": "record-length-does-not-match-fragment", "scenario": x["scenario"]},
+                        "the sender wrote a handshake record that no receiver can parse: " + x.get("wirebadwhat", ""),
+                        {"live": x, "how": x["params"], "rerun": rerun})
+        elif x["maxfragbody"] > x["mtu"]:
+            found_input = True
+            chk.finding(SITE_SPLIT, dict(site_live, monitor="fragment-over-mtu"),
+                        "live sender: fragment body %d > MTU %d" % (x["maxfragbody"], x["mtu"]), {"live": x, "rerun": rerun})
+    ctl_ok = True
+    for sc, var in (("repartition", "control"), ("repartition", "control600"), ("epoch-splice", "control"),
+                    ("jumbo", "control"), ("train", "control"), ("train34k", "control")):
+        x = need(sc, var)
+        if x is None:
+            ctl_ok = False
+            continue
+        good = (x["answered"] and x["cover"]) if sc == "repartition" else hs_ok(x)
+        if sc == "epoch-splice":
+            good = good and x["certsame"] and x["certepochrx"] >= 2
+        if not good:
+            ctl_ok = False
+            found_input = True
+            chk.finding("conn.go bufferHandshakeRecord", {"monitor": "live-control-failed", "scenario": sc, "variant": var},
+                        "%s/%s: a handshake that differs from the scenario only in the one parameter does not "
+                        "complete (%s)" % (sc, var, x["params"]), {"live": x, "rerun": rerun})
+    x = need("repartition", "test")
+    if x is not None and ctl_ok:
+        if not x["cover"]:
+            chk.broken("live repartition scenario does not deliver every byte", json.dumps(x))
+        elif not x["answered"]:
+            k_live[1].append(x)
+    x = need("epoch-splice", "test")
+    if x is not None and ctl_ok:
+        if x["forgedinside"] or (x["certepochrx"] >= 0 and not x["certsame"]):
+            k_live[2].append(x)
+        elif not hs_ok(x):
+            found_input = True
+            chk.finding(SITE_POP, {"monitor": "forged-epoch0-fragment-breaks-handshake"},
+                        "one forged epoch-0 handshake fragment makes the DTLS 1.3 handshake fail although it did not "
+                        "become part of the Certificate (client: %s; server: %s)" % (x["cerr"], x["serr"]),
+                        {"live": x, "rerun": rerun})
+    x = need("jumbo", "test")
+    if x is not None and ctl_ok and not hs_ok(x):
+        if x["largest"] > x["inboundbuffer"]:
+            k_live[3].append(x)
+        else:
+            found_input = True
+            chk.finding(SITE_SPLIT, {"monitor": "handshake-never-completes", "scenario": "jumbo"},
+                        "handshake does not complete (%s) although no datagram exceeds the read buffer" % x["params"],
+                        {"live": x, "rerun": rerun})
+    for sc in ("train", "train34k"):
+        x = need(sc, "test")
+        if x is not None and ctl_ok and not hs_ok(x):
+            if x["trainfrags"] > MAX_COUNT:
+                k_live[4].append(x)
+            else:
+                found_input = True
+                chk.finding(SITE_PUSH, {"monitor": "handshake-never-completes", "scenario": sc},
+                            "handshake does not complete (%s) although no message has more than %d fragments" % (
+                                x["params"], MAX_COUNT), {"live": x, "rerun": rerun})
+    x = need("record-len", "test")
+    if x is not None:
+        chk.leg_info("live", mtu_above_record_length={
+            "what": "WithMTU(100000) and a certificate longer than 65535 bytes: the write is refused "
+                    "(ErrRecordTooLong, fix 9ff70b9) instead of wrapping the record length; nothing malformed on the wire",
+            "server_error": x["serr"], "malformed_records": x["wirebad"]})
+
+    # the known findings: one (site, signature) each; `levels` = where the scenario reproduced in this run
+    def known(kdef, n, what):
+        levels = (["buffer"] if k_buf.get(n) else []) + (["live"] if k_live[n] else [])
+        if not levels:
+            return False
+        replay = {"rerun": rerun}
+        if k_buf.get(n):
+            replay["buffer"] = [{"case": note, "observed": msg, "history": case} for note, msg, case in k_buf[n]]
+            replay["how_buffer"] = "fb := fragmentbuffer.New(); for each op: fb.Push(record) then fb.Pop() until nil"
+        if k_live[n]:
+            replay["live"] = k_live[n]
+            replay["how_live"] = "go test -tags verif -run TestVerifC12Live (harness/overlay/root/zz_verif_c12_live_test.go)"
+        return chk.finding(kdef[0], dict(kdef[1], levels=levels), what, replay)
+
+    def first(l, key, default="-"):
+        return l[0][key] if l else default
+
+    found_input |= known(K1, 1,
+        "a message retransmitted with a different fragment size is never reassembled although every byte arrived "
+        "(fragments are keyed by offset, first writer wins; RFC 6347 4.2.3 requires handling overlapping ranges): "
+        "buffer: [0,100) then twice [0,150),[150,200) of a 200-byte message -> nothing popped; live DTLS 1.2 server: "
+        "%s, fragments %s -> the server never answers" % (
+            first(k_live[1], "params"), first(k_live[1], "parts")))
+    found_input |= known(K2, 2,
+        "fragments of one message are not bound to one epoch: a forged fragment from an unprotected epoch-0 record "
+        "becomes part of a message surfaced under a protected epoch. Live DTLS 1.3: one forged datagram (%s) delivered "
+        "to the client before the server flight -> the Certificate cached under epoch %s differs from what the server "
+        "sent; client: %s; server: %s" % (first(k_live[2], "forged"), first(k_live[2], "certepochrx"),
+                                          first(k_live[2], "cerr"), first(k_live[2], "serr")))
+    found_input |= known(K3, 3,
+        "the MTU is not bounded by what the receiving side can read: %s -> a %s-byte datagram, the peer reads "
+        "datagrams into %s bytes (inboundBufferSize) and never reconstructs the Certificate; handshake pending "
+        "after %s virtual ms on a lossless in-order link" % (
+            first(k_live[3], "params"), first(k_live[3], "largest"), first(k_live[3], "inboundbuffer"),
+            first(k_live[3], "virtualms")))
+    found_input |= known(K4, 4,
+        "the library's own sender cuts a message into more fragments than the receiver ever holds "
+        "(fragmentBufferMaxCount = %d): %s -> handshake message type %s of %s bytes sent as %s fragments, every "
+        "retransmission refused from fragment %d on; handshake pending after %s virtual ms" % (
+            MAX_COUNT, first(k_live[4], "params"), first(k_live[4], "trainmsgtype"), first(k_live[4], "trainmsglen"),
+            first(k_live[4], "trainfrags"), MAX_COUNT + 1, first(k_live[4], "virtualms")))
 
     # (2) generated honest histories
     for leg in ("multi", "exh", "small", "big"):
@@ -422,6 +648,16 @@ def run(chk):
         chk.leg_info("split", in_coq=len(small_splits), go_only_checked_against_body=len(splits) - len(small_splits))
         chk.leg_info("big", note="messages up to 40000 bytes / MTU up to 2000: popped bytes compared with the honest "
                                  "message inside the harness (bytes.Equal), monitors on offsets/lengths here; not sent to Coq")
+        chk.count("live", len(live), [(x["scenario"], x["variant"]) for x in live if x["variant"] != "control"],
+                  samples=[{"scenario": x["scenario"], "variant": x["variant"], "params": x["params"], "done": x["done"],
+                            "answered": x["answered"]} for x in live if x["variant"] == "test"][:3])
+        chk.leg_info("live", note="real endpoints in the virtual-time lab; not sent to Coq (the reassembly state is "
+                                  "compared with the model in the buffer legs); judged by control/test pairs",
+                     observations=[{k: x[k] for k in ("scenario", "variant", "params", "done", "cerr", "serr", "answered",
+                                                      "largest", "trainfrags", "virtualms")} for x in live])
+        chk.leg_info("multi", all_bytes_arrived_not_popped=sum(1 for c in ms if monitor_all_bytes(c)),
+                     note2="all_bytes_arrived_not_popped = random re-fragmenting histories that are further instances of "
+                           "known finding K-C12-1 (every byte of a message on the wire, message not delivered)")
         chk.cov["traces_validated_against_impl"] += len(coq_cases) + len(small_splits)
     if not proved and not found_input:
         where, out = getattr(chk, "proof_error", ("?", ""))
@@ -437,7 +673,14 @@ def run(chk):
              "tails, AdvanceTo; multi: a re-fragmenting peer - 2-3 partitions of each of 1-3 messages with losses, "
              "interleaved, incl. overlaps whose lengths sum exactly to the message length with bytes missing - "
              "safety monitors only; limits: both resource limits reached; regress: the two formerly failing inputs, run "
-             "first; boundary: the documented liveness boundaries replayed). "
+             "first; boundary: the liveness boundaries and the epoch splice replayed - safety monitors must hold, the "
+             "RFC-completeness monitor (every byte on the wire => delivered) and the epoch-binding monitor feed the known "
+             "findings K-C12-1/2/4). "
+             "live: real endpoints (control/test pairs): ClientHello retransmitted with another fragment size against a "
+             "DTLS 1.2 server, forged epoch-0 fragment of the DTLS 1.3 Certificate (cached message compared with what the "
+             "server sent), WithMTU(9000) vs inboundBufferSize, WithMTU(100000) vs the 16-bit record length (every record "
+             "on the wire must parse: 12 + fragment_length = record length), WithMTU(1) / WithMTU(20) trains of > 1000 fragments (1.1 kB / 33 kB certificate); every "
+             "live run also checks fragment body <= MTU on the wire. "
              "big: messages <= 40000 bytes, MTU <= 2000, monitored on the implementation only. split: "
              "(*Conn).fragmentHandshake vs Frag/Split.v (every length 0..12 x MTU 1..13 exhaustively + random). "
              "Non-trivial = at least one message popped from at least two fragments (honest legs) / something stored "
@@ -449,6 +692,9 @@ def run(chk):
                      "completeness theorem premises: one duplicate-free partition per message, all fragments of the "
                      "handshake direction < fragmentBufferMaxCount and all body bytes + one record < "
                      "fragmentBufferMaxSize, fewer than 65536 messages (message_seq is uint16 and the cursor wraps)",
+                     "known findings (registered): K-C12-1 re-fragmented retransmission never reassembled, K-C12-2 fragments "
+                     "not bound to one epoch, K-C12-3 MTU not bounded by the peer's read buffer, K-C12-4 own sender's "
+                     "trains beyond fragmentBufferMaxCount; each has a _refuted witness in Properties/C12.v",
                      "AdvanceTo is modelled and compared, but the reassembly theorems are stated for histories "
                      "without an AdvanceTo that skips messages (conn.go only advances to the handshake receive "
                      "sequence)"])
